@@ -87,6 +87,8 @@ IMPORT = [
 
 def run(ctx):
     F = ctx.F
+    from rules import deadrules as _dr
+    _dr.rule_parsed_fields_used(ctx, "R14.8", ("layout21raw::proto::",), 10)
     fl = get_flow(F)
     ctx.rule("R14.1e", "raw -> proto: every field of every converter's output derives from the corresponding raw field (x/y, width/height never crossed)")
     ctx.rule("R14.1i", "proto -> raw: every field of every converter's output derives from the corresponding message field")
